@@ -236,6 +236,82 @@ FUNC_MODELS[id(_socket.inet_ntop)] = _inet_ntop_model
 _KEEP.append(_socket.inet_ntop)
 
 
+def concretize_seq(s, max_symbolic=1):
+    """Concrete bytes/str for a symbolic sequence by forking over every
+    feasible value of (at most max_symbolic) symbolic elements."""
+    if not isinstance(s, _SSeq):
+        return s
+    nsym = sum(1 for x in s._e if not isinstance(x, int))
+    if nsym > max_symbolic:
+        raise Unsupported('concretising %d symbolic elements' % nsym)
+    vals = [x if isinstance(x, int) else int(mkint(x)) for x in s._e]
+    return bytes(vals) if s._is_bytes else ''.join(map(chr, vals))
+
+
+def _inet_pton_model(family, text):
+    """AF_INET: exact model of glibc inet_pton (strict dotted quad: four
+    decimal octets 0..255, 1-3 digits, no leading zero except '0' itself);
+    CPython raises ValueError for an embedded NUL.  AF_INET6: the text is
+    concretised (at most one symbolic character) and the real function is
+    called."""
+    if not isinstance(text, SStr):
+        return _socket.inet_pton(family, text)
+    e = text._e
+
+    def d(c):
+        return c if isinstance(c, bool) else bool(mkbool(c))
+    for c in e:
+        if d(c == 0):
+            raise ValueError('embedded null character')
+    if family != _socket.AF_INET:
+        return _socket.inet_pton(family, concretize_seq(text, 1))
+    octets = []
+    cur = None
+    ndig = 0
+    lead0 = False
+    for c in e:
+        if d(z3.And(c >= 48, c <= 57) if not isinstance(c, int)
+             else 48 <= c <= 57):
+            if cur is None:
+                cur = c - 48
+                ndig = 1
+                lead0 = d(c == 48)
+            else:
+                if lead0 or ndig >= 3:
+                    raise OSError('illegal IP address string passed to '
+                                  'inet_pton')
+                cur = cur * 10 + (c - 48)
+                ndig += 1
+                if d(cur > 255):
+                    raise OSError('illegal IP address string passed to '
+                                  'inet_pton')
+        elif d(c == 46) and cur is not None and len(octets) < 3:
+            octets.append(cur)
+            cur = None
+        else:
+            raise OSError('illegal IP address string passed to inet_pton')
+    if cur is None or len(octets) != 3:
+        raise OSError('illegal IP address string passed to inet_pton')
+    octets.append(cur)
+    return mkbytes(octets)
+
+
+FUNC_MODELS[id(_socket.inet_pton)] = _inet_pton_model
+_KEEP.append(_socket.inet_pton)
+
+
+def _dict_get(recv, key, default=None):
+    if isinstance(key, _PROXY):
+        for k in recv:
+            if bool(k == key):
+                return recv[k]
+        return default
+    return dict.get(recv, key, default)
+
+
+METH_MODELS[(dict, 'get')] = _dict_get
+
+
 # -- base64 / binascii over symbolic bytes
 _B64 = b'ABCDEFGHIJKLMNOPQRSTUVWXYZabcdefghijklmnopqrstuvwxyz0123456789+/'
 
@@ -429,7 +505,11 @@ class SByteArray(object):
     _sx_symbolic = True
 
     def __init__(self, arg=0):
+        if isinstance(arg, SymInt):
+            arg = int(arg)            # forks over every feasible length
         if isinstance(arg, int):
+            if arg < 0:
+                raise ValueError('negative count')
             self._e = [0] * arg
         else:
             self._e = list(elems_of(arg))
